@@ -617,7 +617,7 @@ static void random_lookup(vf_rng *r)
 /* ----------------------------------------------------------------- cases -- */
 #define NB 24
 #define NX 12
-static uint64_t n_hist(void) { return vf_thorough ? 10000 : 700; }
+static uint64_t n_hist(void) { return vf_thorough ? 30000 : 2500; }
 uint64_t vf_cases(void) { return NB + NX + n_hist(); }
 
 /* built-in description, different first calls */
@@ -675,7 +675,7 @@ static void case_builtin(uint64_t idx, vf_rng *r)
 		}
 	}
 	vf_nontrivial();
-	vf_sample("built-in sweep variant %d: ids 0..0x%x by id, interface/metatype records, names", (int) idx, IDMAX);
+	if (idx % 8 == 0) vf_sample("built-in sweep variant %d: ids 0..0x%x by id, interface/metatype records, names", (int) idx, IDMAX);
 }
 static int register_one(int range, int k, vf_rng *r)
 {
@@ -767,7 +767,7 @@ static void case_history(uint64_t idx, vf_rng *r)
 	if (accepted_ops >= 3 && refused_ops >= 1 && __builtin_popcount(kinds_seen) >= 2) vf_nontrivial();
 	snprintf(desc, sizeof(desc), "history of %d ops: registered basic=%d generic=%d interface=%d metatype=%d, refused=%d; sweep at end",
 	         nops, n_basic, n_generic, n_iface, n_meta, refused_ops);
-	vf_sample("%s", desc);
+	if (idx % 5 == 0) vf_sample("%s", desc);
 }
 
 void vf_case(uint64_t idx, vf_rng *r)
